@@ -102,6 +102,7 @@ package agent
 //@ requires chanInv(a)
 //@ ensures [channels-stay-open] chanInv(a) && fired(a.initOnce)
 //@ sendreq * [signals-the-loop-on-its-stop-channel] : ch == a.stopCh
+//@ ensures [the-stop-signal-is-always-delivered] sent(a.stopCh) == 1
 
 //@ func (*Agent).Wait
 //@ property C20 C15
